@@ -832,109 +832,3 @@ Qed.
 
 End CopyRows.
 
-(* ---------------------------------------------------------------------------------------- *)
-(* Range::range (window)                                                                    *)
-(* ---------------------------------------------------------------------------------------- *)
-Section Window.
-Variable T : Type.
-Variable d : T.
-
-Lemma cell_or_empty : forall (r : range T) q, is_empty r = true -> cell_or d r q = d.
-Proof. intros r q H. unfold cell_or. rewrite get_value_empty by assumption. reflexivity. Qed.
-
-Lemma cell_or_mk : forall sr sc er ec (l : list T) q, sr <= er -> sc <= ec ->
-  N.of_nat (length l) = (er - sr + 1) * (ec - sc + 1) ->
-  Some (cell_or d (mkRange (sr, sc) (er, ec) l) q) =
-    if in_box (sr, sc) (er, ec) q
-    then nth_error l (N.to_nat (fst q - sr) * N.to_nat (ec - sc + 1) + N.to_nat (snd q - sc))%nat
-    else Some d.
-Proof.
-  intros sr sc er ec l q H1 H2 Hl. unfold cell_or.
-  rewrite (@get_value_mk T sr sc er ec l q H1 H2 Hl).
-  destruct (in_box (sr, sc) (er, ec) q) eqn:Eb; [|reflexivity].
-  destruct (nth_error l _) as [x|] eqn:En; [reflexivity|].
-  apply nth_error_None in En. pose proof (@box_index_lt sr sc er ec q _ Eb Hl). lia.
-Qed.
-
-Lemma window_spec_sec : forall (r : range T) (s e : pos),
-    Wf r -> le2 s e -> box_cells s e <= U32MAX ->
-    exists w, window d r s e = Ok w /\ Wf w /\ rect w = Some (s, e) /\
-      forall q, get_value w q = if in_box s e q then Some (cell_or d r q) else None.
-Proof.
-  intros r s e HWf Hle Hb.
-  destruct (new_spec d Hle Hb) as (other & Hnew & HWfo & Hrecto & Hgeto).
-  rewrite (new_ok d Hle Hb) in Hnew. injection Hnew as Hother.
-  unfold window. rewrite (new_ok d Hle Hb). cbn [obind]. rewrite Hother.
-  destruct r as [[ssr ssc] [ser sec] l], s as [osr osc], e as [oer oec]. cbn [r_start r_end].
-  destruct (is_empty (mkRange (ssr, ssc) (ser, sec) l)) eqn:Hemp.
-  { (* empty source *)
-    exists other. split; [reflexivity|]. split; [assumption|]. split; [assumption|].
-    intro q. rewrite Hgeto, cell_or_empty by assumption. reflexivity. }
-  destruct (Wf_ne HWf Hemp) as (H1 & H2 & Hh & Hw & Hl).
-  cbn [r_start r_end r_inner fst snd] in H1, H2, Hh, Hw, Hl. rewrite Hh, Hw in Hl.
-  cbv zeta.
-  destruct ((N.min ser oer <? N.max ssr osr) || (N.min sec oec <? N.max ssc osc)) eqn:Eov.
-  { (* no overlap *)
-    exists other. split; [reflexivity|]. split; [assumption|]. split; [assumption|].
-    intro q. rewrite Hgeto. destruct (in_box (osr, osc) (oer, oec) q) eqn:Eb; [|reflexivity].
-    rewrite (@cell_or_mk ssr ssc ser sec l q H1 H2 Hl).
-    destruct (in_box (ssr, ssc) (ser, sec) q) eqn:Eb'; [|reflexivity].
-    unfold in_box in Eb, Eb'. cbn [fst snd] in Eb, Eb'. lia. }
-  (* overlap *)
-  destruct Hle as [Hle1 Hle2]. unfold box_cells in Hb. cbn [fst snd] in Hle1, Hle2, Hb.
-  assert (Hlo : N.of_nat (length (r_inner other)) = (oer - osr + 1) * (oec - osc + 1)).
-  { rewrite <- Hother. cbn [r_inner]. unfold box_cells. cbn [fst snd]. rewrite repeat_length. lia. }
-  assert (Hwo : width other = oec - osc + 1).
-  { rewrite <- Hother. unfold width. rewrite ne_mk; [reflexivity|].
-    unfold box_cells. cbn [fst snd]. rewrite repeat_length. lia. }
-  rewrite Hw, Hwo.
-  destruct (sec - ssc + 1 =? 0) eqn:Ez1; [lia|]. destruct (oec - osc + 1 =? 0) eqn:Ez2; [lia|].
-  unfold firstn_skipn_rows. cbn [r_inner].
-  assert (Hd : forall n, (n < N.to_nat (oer - osr + 1) * N.to_nat (oec - osc + 1))%nat ->
-                 nth_error (r_inner other) n = Some d).
-  { intros n Hn. rewrite <- Hother. cbn [r_inner]. apply nth_error_repeat.
-    unfold box_cells. cbn [fst snd]. lia. }
-  destruct (@window_nat T d l (r_inner other)
-              (N.to_nat (ser - ssr + 1)) (N.to_nat (sec - ssc + 1))
-              (N.to_nat (oer - osr + 1)) (N.to_nat (oec - osc + 1))
-              (N.to_nat (N.max ssr osr - ssr)) (N.to_nat (N.min ser oer + 1 - ssr))
-              (N.to_nat (N.max ssc osc - ssc)) (N.to_nat (N.min sec oec + 1 - ssc))
-              (N.to_nat (N.max ssr osr - osr)) (N.to_nat (N.min ser oer + 1 - osr))
-              (N.to_nat (N.max ssc osc - osc)) (N.to_nat (N.min sec oec + 1 - osc)))
-    as (mid & Hmid & Hlen & Hnth); try lia; try exact Hd.
-  rewrite Hmid. cbn [obind]. eexists; split; [reflexivity|].
-  match goal with |- Wf (mkRange _ _ ?out) /\ _ => set (outl := out) in * end.
-  assert (Hlout : N.of_nat (length outl) = (oer - osr + 1) * (oec - osc + 1)) by lia.
-  split; [apply Wf_mk; assumption|]. split; [apply rect_mk; assumption|].
-  intro q. rewrite (@get_value_mk T osr osc oer oec outl q Hle1 Hle2 Hlout).
-  destruct (in_box (osr, osc) (oer, oec) q) eqn:Eb; [|reflexivity].
-  destruct q as [qr qc]. cbn [fst snd].
-  assert (Hq : osr <= qr /\ qr <= oer /\ osc <= qc /\ qc <= oec)
-    by (unfold in_box in Eb; cbn [fst snd] in Eb; lia).
-  rewrite Hnth by lia.
-  rewrite (@cell_or_mk ssr ssc ser sec l (qr, qc) H1 H2 Hl). cbn [fst snd].
-  destruct (in_box (ssr, ssc) (ser, sec) (qr, qc)) eqn:Eb'; unfold in_box in Eb'; cbn [fst snd] in Eb'.
-  - destruct (Nat.leb_spec (N.to_nat (N.max ssr osr - osr)) (N.to_nat (qr - osr))); [|lia].
-    destruct (Nat.ltb_spec (N.to_nat (qr - osr)) (N.to_nat (N.min ser oer + 1 - osr))); [|lia].
-    destruct (Nat.leb_spec (N.to_nat (N.max ssc osc - osc)) (N.to_nat (qc - osc))); [|lia].
-    destruct (Nat.ltb_spec (N.to_nat (qc - osc)) (N.to_nat (N.min sec oec + 1 - osc))); [|lia].
-    cbn [andb]. clear - Hq Eb'.
-    match goal with
-    | |- nth_error l (?a * ?w + ?b)%nat = nth_error l (?a' * ?w + ?b')%nat =>
-        replace a with a' by lia; replace b with b' by lia; reflexivity
-    end.
-  - destruct (Nat.leb_spec (N.to_nat (N.max ssr osr - osr)) (N.to_nat (qr - osr)));
-    destruct (Nat.ltb_spec (N.to_nat (qr - osr)) (N.to_nat (N.min ser oer + 1 - osr)));
-    destruct (Nat.leb_spec (N.to_nat (N.max ssc osc - osc)) (N.to_nat (qc - osc)));
-    destruct (Nat.ltb_spec (N.to_nat (qc - osc)) (N.to_nat (N.min sec oec + 1 - osc)));
-    cbn [andb]; try reflexivity. lia.
-Qed.
-
-End Window.
-
-Lemma window_spec :
-  forall (T : Type) (d : T) (r : range T) (s e : pos),
-    Wf r -> le2 s e -> box_cells s e <= U32MAX ->
-    exists w, window d r s e = Ok w /\ Wf w /\ rect w = Some (s, e) /\
-      forall q, get_value w q = if in_box s e q then Some (cell_or d r q) else None.
-Proof. intros T d. apply window_spec_sec. Qed.
